@@ -1,84 +1,308 @@
-/- C02: model of the operand handling in /repo/src/core/emit.c and of `janetc_regalloc_temp` in regalloc.c, for LOCAL
-   slots (near: index ≤ 0xFF, far: index > 0xFF).  Instructions are abstract (`MI`); `MI.word` gives the 32-bit word emit.c
-   writes (opcode numbers from the generated table).  Upvalue / constant / ref slots: see notes/C02.md (not modelled here;
-   they are covered by translation validation through `Bytecode/Exec`).  Core Lean only. -/
+/- C02: model of /repo/src/core/emit.c + regalloc.c.
+
+   * slot kinds: local (near: index ≤ 0xFF, far), upvalue, constant, ref (global var: one-element array constant)
+   * abstract instructions `MI` with their 32-bit encoding `MI.word` (opcode numbers from the generated table)
+   * PURE emitters (`movenear`, `moveback`, `regnear`, `regfar`, `copy`, `emitS/SS/SSS/SSI/SI`) parameterised by the temporary
+     registers; the theorems in Emit/Proofs.lean are about these
+   * the allocator (`janetc_regalloc_1/temp/freetemp/touch`) and the stateful wrappers `W.*` that obtain the temporaries
+     from the allocator in the order the C does, intern constants like `janetc_const`, and then call the pure emitters;
+     `W.*` is what harness/C02/emit_wrap.c (the real emit.c) is compared with, word for word.
+   Core Lean only. -/
 import JanetModel.Gen.Bytecode
 namespace JanetModel.Emit
 open JanetModel.Gen.Bytecode
 
-/-- instructions emit.c places around an operation on local slots -/
-inductive MI where
-  | movn (dst src : Nat)        -- JOP_MOVE_NEAR  A=dst (8 bit)  E=src (16 bit):  stack[A] = stack[E]
-  | movf (src dst : Nat)        -- JOP_MOVE_FAR   A=src (8 bit)  E=dst (16 bit):  stack[E] = stack[A]
-  | op3 (op a b c : Nat)        -- the payload  op A B C:  stack[A] = f stack[B] stack[C]
-  | op2i (op a b imm : Nat)     -- payload with immediate / unsigned third field:  stack[A] = g imm stack[B]
+inductive KConst where
+  | nil | tru | fls
+  | int (n : Int)
+  | refarr (id : Nat)          -- the one-element array behind a global var
+  deriving DecidableEq, Repr, Inhabited
+
+inductive Slot where
+  | loc (i : Nat)
+  | up (env idx : Nat)
+  | const (k : KConst)
+  | ref (id : Nat)
+  deriving DecidableEq, Repr, Inhabited
+
+/-- operand layout of the payload instruction -/
+inductive Shape where
+  | sss   -- A B C
+  | ss    -- A E(16)
+  | s     -- D(24)
+  | ssi   -- A B rest(8)      janetc_emit_ssi / _ssu
+  | si    -- A rest(16)       janetc_emit_si / _su / _sl / _st
   deriving DecidableEq, Repr
+
+inductive MI where
+  | movn (d s : Nat)                     -- MOVE_NEAR   stack[A=d] = stack[E=s]
+  | movf (s d : Nat)                     -- MOVE_FAR    stack[E=d] = stack[A=s]
+  | ldu (d e i : Nat)                    -- LOAD_UPVALUE A=d B=e C=i
+  | setu (s e i : Nat)                   -- SET_UPVALUE  A=s B=e C=i
+  | ldk (d : Nat) (k : KConst) (idx : Nat)   -- janetc_loadconst of a plain constant (idx: pool index when needed)
+  | ldref (d idx id : Nat)               -- LOAD_CONSTANT of the ref array
+  | geti0 (a b : Nat)                    -- GET_INDEX A=a B=b C=0
+  | puti0 (a b : Nat)                    -- PUT_INDEX A=a(ds) B=b(value) C=0
+  | pay (op : Nat) (sh : Shape) (wr : Bool) (rs : List Nat) (rest : Nat)
+  deriving DecidableEq, Repr
+
+def imod (n : Int) (m : Nat) : Nat := (n % (m : Int)).toNat
 
 def MI.word : MI → Nat
   | .movn d s => Op.moveNear.toNat + d * 256 + s * 65536
   | .movf s d => Op.moveFar.toNat + s * 256 + d * 65536
-  | .op3 op a b c => op + a * 256 + b * 65536 + c * 16777216
-  | .op2i op a b i => op + a * 256 + b * 65536 + i * 16777216
+  | .ldu d e i => Op.loadUpvalue.toNat + d * 256 + e * 65536 + i * 16777216
+  | .setu s e i => Op.setUpvalue.toNat + s * 256 + e * 65536 + i * 16777216
+  | .ldk d .nil _ => Op.loadNil.toNat + d * 256
+  | .ldk d .tru _ => Op.loadTrue.toNat + d * 256
+  | .ldk d .fls _ => Op.loadFalse.toNat + d * 256
+  | .ldk d (.int n) idx =>
+    if -32768 ≤ n ∧ n ≤ 32767 then Op.loadInteger.toNat + d * 256 + imod n 65536 * 65536
+    else Op.loadConstant.toNat + d * 256 + idx * 65536
+  | .ldk d (.refarr _) idx => Op.loadConstant.toNat + d * 256 + idx * 65536
+  | .ldref d idx _ => Op.loadConstant.toNat + d * 256 + idx * 65536
+  | .geti0 a b => Op.getIndex.toNat + a * 256 + b * 65536
+  | .puti0 a b => Op.putIndex.toNat + a * 256 + b * 65536
+  | .pay op sh _ rs rest =>
+    let r (k : Nat) := rs.getD k 0
+    match sh with
+    | .sss => op + r 0 * 256 + r 1 * 65536 + r 2 * 16777216
+    | .ss => op + r 0 * 256 + r 1 * 65536
+    | .s => op + r 0 * 256
+    | .ssi => op + r 0 * 256 + r 1 * 65536 + rest % 256 * 16777216
+    | .si => op + r 0 * 256 + rest % 65536 * 65536
 
-/-- `janetc_regnear` for a local slot: near registers are used in place, far ones are loaded into the temp for `tag` -/
-def regnear (idx tmp : Nat) : Nat × List MI :=
-  if idx ≤ 0xFF then (idx, []) else (tmp, [.movn tmp idx])
+/-! ### pure emitters (temporaries are parameters) -/
 
-/-- `janetc_moveback` for a local destination -/
-def moveback (idx reg : Nat) : List MI := if idx ≠ reg then [.movf reg idx] else []
+/-- does `janetc_loadconst` put the constant into the pool? -/
+def KConst.pooled : KConst → Bool
+  | .int n => !(-32768 ≤ n ∧ n ≤ 32767)
+  | .refarr _ => true
+  | _ => false
 
-/-- `janetc_emit_sss` with wr = 1 on local slots; t0 t1 t2 are the registers `janetc_regalloc_temp` returns for tags 0 1 2 -/
-def emitSSS (op dest a b t0 t1 t2 : Nat) : List MI :=
-  let (r1, l1) := regnear dest t0
-  let (r2, l2) := regnear a t1
-  let (r3, l3) := regnear b t2
-  l1 ++ l2 ++ l3 ++ [.op3 op r1 r2 r3] ++ moveback dest r1
+/-- `janetc_movenear` -/
+def movenear (cidx : KConst → Nat) (dest : Nat) : Slot → List MI
+  | .const k => [.ldk dest k (cidx k)]
+  | .ref id => [.ldref dest (cidx (.refarr id)) id, .geti0 dest dest]
+  | .up e i => [.ldu dest e i]
+  | .loc i => if i ≠ dest then [.movn dest i] else []
 
-/-- `emit2s` (`janetc_emit_ssi` / `_ssu`) with wr = 1 -/
-def emitSSI (op dest a imm t0 t1 : Nat) : List MI :=
-  let (r1, l1) := regnear dest t0
-  let (r2, l2) := regnear a t1
-  l1 ++ l2 ++ [.op2i op r1 r2 imm] ++ moveback dest r1
+/-- `janetc_moveback` (t5 = temporary for tag 5, used for ref destinations) -/
+def moveback (cidx : KConst → Nat) (t5 : Nat) (dest : Slot) (src : Nat) : List MI :=
+  match dest with
+  | .ref id => [.ldref t5 (cidx (.refarr id)) id, .puti0 t5 src]
+  | .up e i => [.setu src e i]
+  | .loc i => if i ≠ src then [.movf src i] else []
+  | .const _ => []          -- the C asserts: never called
 
-/-- `janetc_copy` between two local slots (tag 3 temp) -/
-def copy (dest src t3 : Nat) : List MI :=
-  if dest = src then []
-  else if dest ≤ 0xFF then (if src ≠ dest then [.movn dest src] else [])
-  else if src ≤ 0xFF then moveback dest src
-  else [.movn t3 src] ++ moveback dest t3
+def Slot.nearLocal : Slot → Bool
+  | .loc i => i ≤ 0xFF
+  | _ => false
 
-/-! ### machine: registers as a function (the part of `Bytecode/Exec.step` that these instructions touch) -/
-variable {α : Type}
+def Slot.isLocal : Slot → Bool
+  | .loc _ => true
+  | _ => false
 
-def upd (regs : Nat → α) (i : Nat) (v : α) : Nat → α := fun j => if j = i then v else regs j
+def Slot.index : Slot → Nat
+  | .loc i => i
+  | _ => 0
 
-def exec (f : α → α → α) (g : Nat → α → α) (regs : Nat → α) : MI → (Nat → α)
-  | .movn d s => upd regs d (regs s)
-  | .movf s d => upd regs d (regs s)
-  | .op3 _ a b c => upd regs a (f (regs b) (regs c))
-  | .op2i _ a b i => upd regs a (g i (regs b))
+/-- `janetc_regnear`: register the payload uses + loads -/
+def regnear (cidx : KConst → Nat) (s : Slot) (t : Nat) : Nat × List MI :=
+  if s.nearLocal then (s.index, []) else (t, movenear cidx t s)
 
-def run (f : α → α → α) (g : Nat → α → α) (regs : Nat → α) (is : List MI) : Nat → α := is.foldl (exec f g) regs
+/-- `janetc_regfar` (t: near temporary, fr: far register used when the temporary is a reserved one) -/
+def regfar (cidx : KConst → Nat) (s : Slot) (t fr : Nat) : Nat × List MI :=
+  if s.isLocal then (s.index, [])
+  else if t ≥ 0xF0 then (fr, movenear cidx t s ++ [.movf t fr])
+  else (t, movenear cidx t s)
 
-/-! ### `janetc_regalloc_temp` -/
+/-- `janetc_copy` -/
+def copy (cidx : KConst → Nat) (dest src : Slot) (t3 t5 : Nat) : List MI :=
+  match dest with
+  | .const _ => []
+  | _ =>
+    if dest = src then []
+    else if dest.nearLocal then movenear cidx dest.index src
+    else if src.nearLocal then moveback cidx t5 dest src.index
+    else movenear cidx t3 src ++ moveback cidx t5 dest t3
 
-/-- allocator: which registers are taken.  0xF0..0xFF are always reserved (`pushchunk`: chunk 7 starts as 0xFFFF0000). -/
+def wb (cidx : KConst → Nat) (t5 : Nat) (wr : Bool) (s : Slot) (r : Nat) : List MI := if wr then moveback cidx t5 s r else []
+
+/-- `janetc_emit_sss` -/
+def emitSSS (cidx : KConst → Nat) (op : Nat) (wr : Bool) (s1 s2 s3 : Slot) (t0 t1 t2 t5 : Nat) : List MI :=
+  (regnear cidx s1 t0).2 ++ (regnear cidx s2 t1).2 ++ (regnear cidx s3 t2).2 ++
+    ([.pay op .sss wr [(regnear cidx s1 t0).1, (regnear cidx s2 t1).1, (regnear cidx s3 t2).1] 0] ++ wb cidx t5 wr s1 (regnear cidx s1 t0).1)
+
+/-- `emit2s` = `janetc_emit_ssi` / `janetc_emit_ssu` -/
+def emitSSI (cidx : KConst → Nat) (op : Nat) (wr : Bool) (s1 s2 : Slot) (imm : Nat) (t0 t1 t5 : Nat) : List MI :=
+  (regnear cidx s1 t0).2 ++ (regnear cidx s2 t1).2 ++
+    ([.pay op .ssi wr [(regnear cidx s1 t0).1, (regnear cidx s2 t1).1] imm] ++ wb cidx t5 wr s1 (regnear cidx s1 t0).1)
+
+/-- `janetc_emit_ss` -/
+def emitSS (cidx : KConst → Nat) (op : Nat) (wr : Bool) (s1 s2 : Slot) (t0 t1 fr t5 : Nat) : List MI :=
+  (regnear cidx s1 t0).2 ++ (regfar cidx s2 t1 fr).2 ++
+    ([.pay op .ss wr [(regnear cidx s1 t0).1, (regfar cidx s2 t1 fr).1] 0] ++ wb cidx t5 wr s1 (regnear cidx s1 t0).1)
+
+/-- `emit1s` = `janetc_emit_si` / `_su` / `_sl` / `_st` -/
+def emitSI (cidx : KConst → Nat) (op : Nat) (wr : Bool) (s : Slot) (imm : Nat) (t0 t5 : Nat) : List MI :=
+  (regnear cidx s t0).2 ++ ([.pay op .si wr [(regnear cidx s t0).1] imm] ++ wb cidx t5 wr s (regnear cidx s t0).1)
+
+/-- `janetc_emit_s` -/
+def emitS (cidx : KConst → Nat) (op : Nat) (wr : Bool) (s : Slot) (t0 fr t5 : Nat) : List MI :=
+  (regfar cidx s t0 fr).2 ++ ([.pay op .s wr [(regfar cidx s t0 fr).1] 0] ++ wb cidx t5 wr s (regfar cidx s t0 fr).1)
+
+/-! ### the allocator (regalloc.c) -/
+
 structure RA where
   alloc : Nat → Bool
+  max : Nat := 0
+  temps : Nat → Bool := fun _ => false
 
+/-- registers 0xF0..0xFF are reserved (`pushchunk`: chunk 7 starts as 0xFFFF0000) -/
 def RA.taken (ra : RA) (r : Nat) : Bool := ra.alloc r || (0xF0 ≤ r && r ≤ 0xFF)
 
-/-- first fit from `r` upwards with `fuel` candidates (`janetc_regalloc_1`) -/
 def firstFit (ra : RA) : Nat → Nat → Nat
   | 0, r => r
   | fuel + 1, r => if ra.taken r then firstFit ra fuel (r + 1) else r
 
-def RA.mark (ra : RA) (r : Nat) : RA := { alloc := fun j => if j = r then true else ra.alloc j }
+def RA.mark (ra : RA) (r : Nat) : RA := { ra with alloc := fun j => if j = r then true else ra.alloc j }
+def RA.unmark (ra : RA) (r : Nat) : RA := { ra with alloc := fun j => if j = r then false else ra.alloc j }
 
-/-- `janetc_regalloc_temp`: first fit; if that register is above 0xFF the reserved register 0xF0+tag is used instead
-    (the first-fit register stays marked, exactly as in the C) -/
+def searchFuel : Nat := 70000
+
+/-- `janetc_regalloc_1` -/
+def RA.alloc1 (ra : RA) : Nat × RA :=
+  let r := firstFit ra searchFuel 0
+  (r, { ra.mark r with max := if r > ra.max then r else ra.max })
+
+/-- `janetc_regalloc_temp`: if first fit lands above 0xFF the reserved register 0xF0+tag is used, the first-fit register
+    stays marked and `max` is rolled back to max(oldmax, 0xF0+tag) — exactly as the C does -/
+def RA.allocTemp (ra : RA) (tag : Nat) : Nat × RA :=
+  let oldmax := ra.max
+  let ra1 : RA := { ra with temps := fun j => if j = tag then true else ra.temps j }
+  let (r, ra2) := ra1.alloc1
+  if r > 0xFF then (0xF0 + tag, { ra2 with max := if 0xF0 + tag > oldmax then 0xF0 + tag else oldmax })
+  else (r, ra2)
+
+/-- `janetc_regalloc_freetemp` -/
+def RA.freeTemp (ra : RA) (reg tag : Nat) : RA :=
+  let ra1 : RA := { ra with temps := fun j => if j = tag then false else ra.temps j }
+  if reg < 0xF0 then ra1.unmark reg else ra1
+
+/-- (for the proofs) the simple view used by `regtemp_disjoint` -/
 def regallocTemp (ra : RA) (fuel tag : Nat) : Nat × RA :=
   let r := firstFit ra fuel 0
   (if r > 0xFF then 0xF0 + tag else r, ra.mark r)
 
+/-! ### stateful wrappers: what emit.c does with the compiler state -/
+
+structure C where
+  ra : RA
+  buf : List MI := []
+  consts : List KConst := []
+
+namespace W
+
+/-- `janetc_const`: index in the pool, appended when new -/
+def intern (pool : List KConst) (k : KConst) : List KConst := if k ∈ pool then pool else pool ++ [k]
+
+def poolIdx (pool : List KConst) (k : KConst) : Nat := (pool.idxOf k)
+
+/-- constants a slot load puts in the pool -/
+def slotConst : Slot → List KConst
+  | .const k => if k.pooled then [k] else []
+  | .ref id => [.refarr id]
+  | _ => []
+
+def needTemp (s : Slot) : Bool := !s.nearLocal
+
+/-- obtain the temporary `janetc_regnear` would use -/
+def nearTemp (ra : RA) (s : Slot) (tag : Nat) : Nat × RA :=
+  if needTemp s then ra.allocTemp tag else (s.index, ra)
+
+/-- `janetc_free_regnear` -/
+def freeNear (ra : RA) (s : Slot) (reg tag : Nat) : RA :=
+  if (s.isLocal && reg == s.index) then ra else ra.freeTemp reg tag
+
+/-- allocator side of `janetc_regfar`: returns (near temporary, far register, register used) -/
+def farTemp (ra : RA) (s : Slot) (tag : Nat) : Nat × Nat × Nat × RA :=
+  if s.isLocal then (0, 0, s.index, ra) else
+  let (t, ra1) := ra.allocTemp tag
+  if t ≥ 0xF0 then
+    let (fr, ra2) := ra1.alloc1
+    (t, fr, fr, ra2.freeTemp t tag)
+  else (t, 0, t, (ra1.freeTemp t tag).mark t)
+
+/-- allocator side of `janetc_moveback` (temporary 5 for ref destinations) -/
+def backTemp (ra : RA) (wr : Bool) (s : Slot) : Nat × RA :=
+  match wr, s with
+  | true, .ref _ => let (t, ra1) := ra.allocTemp 5; (t, ra1.freeTemp t 5)
+  | _, _ => (0, ra)
+
+def finish (c : C) (ra : RA) (pool : List KConst) (is : List MI) : C := { ra := ra, buf := c.buf ++ is, consts := pool }
+
+def emitSSS (c : C) (op : Nat) (wr : Bool) (s1 s2 s3 : Slot) : C :=
+  let (t0, ra1) := nearTemp c.ra s1 0
+  let (t1, ra2) := nearTemp ra1 s2 1
+  let (t2, ra3) := nearTemp ra2 s3 2
+  let ra4 := freeNear ra3 s2 t1 1
+  let ra5 := freeNear ra4 s3 t2 2
+  let (t5, ra6) := backTemp ra5 wr s1
+  let ra7 := freeNear ra6 s1 t0 0
+  let pool := (slotConst s1 ++ slotConst s2 ++ slotConst s3).foldl intern c.consts
+  finish c ra7 pool (Emit.emitSSS (poolIdx pool) op wr s1 s2 s3 t0 t1 t2 t5)
+
+def emitSSI (c : C) (op : Nat) (wr : Bool) (s1 s2 : Slot) (imm : Nat) : C :=
+  let (t0, ra1) := nearTemp c.ra s1 0
+  let (t1, ra2) := nearTemp ra1 s2 1
+  let ra3 := freeNear ra2 s2 t1 1
+  let (t5, ra4) := backTemp ra3 wr s1
+  let ra5 := freeNear ra4 s1 t0 0
+  let pool := (slotConst s1 ++ slotConst s2).foldl intern c.consts
+  finish c ra5 pool (Emit.emitSSI (poolIdx pool) op wr s1 s2 imm t0 t1 t5)
+
+def emitSS (c : C) (op : Nat) (wr : Bool) (s1 s2 : Slot) : C :=
+  let (t0, ra1) := nearTemp c.ra s1 0
+  let (t1, fr, r2, ra2) := farTemp ra1 s2 1
+  let ra3 := freeNear ra2 s2 r2 1
+  let (t5, ra4) := backTemp ra3 wr s1
+  let ra5 := freeNear ra4 s1 t0 0
+  let pool := (slotConst s1 ++ slotConst s2).foldl intern c.consts
+  finish c ra5 pool (Emit.emitSS (poolIdx pool) op wr s1 s2 t0 t1 fr t5)
+
+def emitSI (c : C) (op : Nat) (wr : Bool) (s : Slot) (imm : Nat) : C :=
+  let (t0, ra1) := nearTemp c.ra s 0
+  let (t5, ra2) := backTemp ra1 wr s
+  let ra3 := freeNear ra2 s t0 0
+  let pool := (slotConst s).foldl intern c.consts
+  finish c ra3 pool (Emit.emitSI (poolIdx pool) op wr s imm t0 t5)
+
+def emitS (c : C) (op : Nat) (wr : Bool) (s : Slot) : C :=
+  let (t0, fr, r, ra1) := farTemp c.ra s 0
+  let (t5, ra2) := backTemp ra1 wr s
+  let ra3 := freeNear ra2 s r 0
+  let pool := (slotConst s).foldl intern c.consts
+  finish c ra3 pool (Emit.emitS (poolIdx pool) op wr s t0 fr t5)
+
+def copy (c : C) (dest src : Slot) : C :=
+  match dest with
+  | .const _ => c
+  | _ =>
+    if dest = src then c
+    else if dest.nearLocal then
+      let pool := (slotConst src).foldl intern c.consts
+      finish c c.ra pool (Emit.copy (poolIdx pool) dest src 0 0)
+    else if src.nearLocal then
+      let (t5, ra1) := backTemp c.ra true dest
+      let pool := (slotConst dest).foldl intern c.consts
+      finish c ra1 pool (Emit.copy (poolIdx pool) dest src 0 t5)
+    else
+      let (t3, ra1) := c.ra.allocTemp 3
+      let (t5, ra2) := backTemp ra1 true dest
+      let ra3 := ra2.freeTemp t3 3
+      let pool := (slotConst src ++ slotConst dest).foldl intern c.consts
+      finish c ra3 pool (Emit.copy (poolIdx pool) dest src t3 t5)
+
+end W
 end JanetModel.Emit
